@@ -305,32 +305,21 @@ bool scoped_fd::is_open() {
 string read_all(int fd) {
   static const ssize_t read_size = 16 * 1024;
 
-  size_t total_size = 0;
-  vector<string> buffers;
+  // A short read does not mean end of data (pipes, sockets and terminals
+  // return whatever is available); only a zero-byte read does.
+  string ret;
   for (;;) {
-    buffers.emplace_back(read_size, 0);
-    ssize_t bytes_read = ::read(fd, buffers.back().data(), read_size);
+    size_t offset = ret.size();
+    ret.resize(offset + read_size);
+    ssize_t bytes_read = ::read(fd, ret.data() + offset, read_size);
     if (bytes_read < 0) {
       throw io_error(fd);
     }
-
-    total_size += bytes_read;
-    if (bytes_read < read_size) {
-      buffers.back().resize(bytes_read);
+    ret.resize(offset + bytes_read);
+    if (bytes_read == 0) {
       break;
     }
   }
-
-  if (buffers.size() == 1) {
-    return buffers.back();
-  }
-
-  string ret;
-  ret.reserve(total_size);
-  for (const string& buffer : buffers) {
-    ret += buffer;
-  }
-
   return ret;
 }
 
